@@ -23,9 +23,11 @@ TRUSTED_BASE = ['export of the SPPF and instrumentation of the visitor classes b
                 'completeness of the forest built by the Earley engines is NOT proved (C20_forest_complete_full_statement): '
                 'it is compared with brute-force derivation enumeration on every case']
 ALLOWED_AXIOMS = []
-ASSUMPTIONS = ['finite forests; callbacks return finite lists (generators are materialised by the instrumentation)',
+ASSUMPTIONS = ['with regexp terminals under the dynamic lexers, completeness of the forest is only required for the token spans the '
+               'scanner considers (known finding F7); soundness is required against re.fullmatch on every span',
+               'finite forests; callbacks return finite lists (generators are materialised by the instrumentation)',
                'grammars without tree shaping for the derivation comparison (plain rule names, named terminals)',
-               'string-literal terminals only (regexp terminals under the dynamic lexers: see finding F7 / C01)']
+               'streams (a) and (b) use string-literal terminals only']
 
 IMPORTS = ('From LV Require Import Base.Prelude Forest.Sppf Forest.Prio Forest.SppfCheck Forest.PrioCheck Forest.Tft '
            'Forest.TftCheck Forest.Visit Forest.VisitCheck.')
@@ -228,6 +230,11 @@ IGNORE_CORPUS = [
      ['-'], ['x-5', 'x--5', 'x5', '-x-5-']),
     ('start: a b\na: A | AB\nb: BA | A\nA: "a"\nAB: "ab"\nBA: "ba"\n%ignore "b"\n%ignore "bb"\n', ['b', 'bb'],
      ['aba', 'abba', 'abbba', 'aa']),
+    # regexp terminals that are not prefix-closed (a truncation of a match is not itself a match)
+    ('start: A B\nA: /(ab)+/\nB: /a?b/\n', [], ['abab', 'ababab', 'abb', 'ababb']),
+    ('start: x+\nx: AB | C\nAB: /abc|a/\nC: /b?c/\n', [], ['abc', 'abcc', 'aabc', 'abcabc']),
+    ('start: NUM REST?\nNUM: /[0-9]+(e[0-9]+)?/\nREST: /e?[a-z]+/\n', [], ['12e5', '12e', '1e5x', '12ex', '7']),
+    ('start: w+\nw: AB | A | B\nAB: /(ab)+/\nA: "a"\nB: "b"\n%ignore " "\n', [' '], ['abab', 'ab ab', 'aba b']),
 ]
 
 
@@ -250,18 +257,23 @@ def oracle_ignore(g, ign, text, lexer):
     rules, terms = fc.tables(p)
     try:
         ds, cyc = fc.enumerate_derivations_ignore(rules, terms, 'start', text, ign)
+        # the derivations built from the token spans xearley's scanner considers (regexp engine's match and, for
+        # dynamic_complete, its matches on the truncations): equal to all derivations for string terminals and
+        # prefix-closed regexps; a proper subset is the known incompleteness of the dynamic lexers (F7, C01)
+        ds_scan, _ = fc.enumerate_derivations_ignore(rules, terms, 'start', text, ign, scanner=lexer)
     except fc.TooMany:
         return None, None
     if cyc:
         return None, None
+    exact = sorted(ds) == sorted(ds_scan)
     try:
         root = fc.with_timeout(20, p.parse, text)
     except LarkError:
-        if ds:
-            return 'input rejected although it has %d derivations (ignored text between tokens)' % len(ds), None
+        if ds_scan:
+            return 'input rejected although it has %d derivations (ignored text between tokens)' % len(ds_scan), None
         return None, None
     nodes = fc.export_graph(root, p)
-    ob = dict(root=root, p=p, nodes=nodes, ds=ds, rules=rules, cyclic=fc.is_cyclic(nodes))
+    ob = dict(root=root, p=p, nodes=nodes, ds=ds, rules=rules, cyclic=fc.is_cyclic(nodes), exact=exact)
     if ob['cyclic']:
         return ('the forest is cyclic (infinitely many trees) but the input has %d derivations and no derivation '
                 'cycle' % len(ds)), ob
@@ -280,9 +292,10 @@ def oracle_ignore(g, ign, text, lexer):
         if m:
             return 'a tree read off the forest is not a derivation of the input: %s; tree %r' % (m, o), ob
     got = set(map(fc.erase_pos, got_pos))
-    if got != want:
+    must = want if exact else set(fc.erase_pos(named(d)) for d in ds_scan)
+    if not (must <= got <= want):
         return ('expanding TreeForestTransformer(resolve_ambiguity=False) gives trees %r that are not derivations / misses '
-                '%r (%d derivations expected)' % (sorted(got - want)[:2], sorted(want - got)[:2], len(want))), ob
+                '%r (%d derivations expected)' % (sorted(got - want)[:2], sorted(must - got)[:2], len(must))), ob
     extra = [o for o in got_pos if o not in want_pos]
     if extra:
         return 'a tree read off the forest places its tokens where no derivation does: %r' % (extra[0],), ob
@@ -294,7 +307,7 @@ def oracle_ignore(g, ign, text, lexer):
     return None, ob
 
 
-def select_ignore_texts(rng, g, ign, want=4):
+def select_ignore_texts(rng, g, ign, want=4, maxlen=4):
     """texts up to length 4 accepted under the dynamic lexer; prefer those whose derivations use ignored text and
     are ambiguous"""
     import itertools
@@ -304,18 +317,22 @@ def select_ignore_texts(rng, g, ign, want=4):
     except LarkError:
         return None
     rules, terms = fc.tables(p)
+    if '/' in g.split('%ignore')[0]:
+        want, maxlen = 3 * want, maxlen + 1        # regexp terminals: more and longer texts
     best, rest = [], []
-    for n in range(0, 5):
+    for n in range(0, maxlen + 1):
         for tup in itertools.product('ab', repeat=n):
             t = ''.join(tup)
             try:
                 ds, cyc = fc.enumerate_derivations_ignore(rules, terms, 'start', t, ign, cap=60)
+                if ds and not fc.enumerate_derivations_ignore(rules, terms, 'start', t, ign, cap=60, scanner='dynamic')[0]:
+                    ds = []          # not accepted by the dynamic scanner
             except fc.TooMany:
                 continue
             if cyc or not ds:
                 continue
             gap = any(sum(len(l[2]) for l in fc.leaves(d)) < len(t) for d in ds)
-            (best if gap and len(ds) > 1 else rest).append(t)
+            (best if (gap or '/' in g) and len(ds) > 1 else rest).append(t)
     rng.shuffle(best)
     rng.shuffle(rest)
     return best[:want] + rest[:1]
@@ -371,7 +388,7 @@ def correspond(ctx):
             ctx.violation('oracle-ignore:regression-corpus', w, True, msg)
     icases, imeta = [], []
     ign_work = [(g, ign, ts) for g, ign, ts in IGNORE_CORPUS]
-    for gi in range(ctx.scale(45, 300) * (3 if ctx.widen else 1)):
+    for gi in range(ctx.scale(110, 500) * (3 if ctx.widen else 1)):
         g, ign = fc.gen_ignore_grammar(rng)
         ign_work.append((g, ign, None))
     for g, ign, texts in ign_work:
@@ -395,7 +412,8 @@ def correspond(ctx):
                     continue
                 nd = len(ob['ds'])
                 ctx.count('ignore-overlap', key=(g, text, lexer), nontrivial=nd > 1, lexer=lexer,
-                          ignored=len(ign), derivations=min(nd, 9))
+                          ignored=len(ign), derivations=min(nd, 9), regexp_terminals='/' in g.split('%ignore')[0],
+                          scanner_sees_all_derivations=ob.get('exact'))
                 if ob['cyclic'] or 't_amb' not in ob:
                     continue
                 if fc.unfolded_size(ob['nodes']) <= MAX_UNFOLDED and nd <= 60:
